@@ -74,3 +74,16 @@ Definition chk_both (c : case) : bool := chk_case c && chk_doc c.
 (* what the documented meaning selects (used to replay findings) *)
 Definition run_doc (e : expr) (kc : list col) (rows : list row) : list (list nv) :=
   map (key_of kc) (filter (fun r => tri_is_true (deval (env_of r) e)) rows).
+
+(* constraint summary: (expression, observed PredicateConstraintsSummary.constraint_data_id as (key column, value) pairs);
+   the dict keeps the FIRST value recorded for a key *)
+Definition key_cols : list col := [0; 1; 10; 12; 13; 14; 30; 42]%N.
+Definition iskey (c : col) : bool := existsb (N.eqb c) key_cols.
+Fixpoint first_of (c : col) (l : list (col * value)) : option value :=
+  match l with [] => None | (k, v) :: r => if N.eqb k c then Some v else first_of c r end.
+Definition chk_summary_with (inv_eq : bool) (c : expr * list (col * value)) : bool :=
+  let '(e, obs) := c in
+  let s := where_summary_g inv_eq iskey e in
+  forallb (fun kv => nv_eqb (first_of (fst kv) s) (Some (snd kv))) obs
+  && forallb (fun kv => existsb (fun o => N.eqb (fst o) (fst kv)) obs) s.
+Definition chk_summary := chk_summary_with false.
